@@ -96,47 +96,39 @@ class T1:
     """child order: variant -> ordered list of field keys visited by for_each_child"""
 
     def __init__(self, ctx, t0):
+        from . import peval
         f = ctx.fn("patronus", FOR_EACH_CHILD)
         visitor = None
         for p in f["params"]:
             if p.get("k") == "pbind" and p["name"] != "self":
                 visitor = (p["name"], p["id"])
-        m = find_match_on(f["body"], is_self_expr)
         self.order = {}
-        if m is None or visitor is None:
-            ctx.inst("T1", "for_each_child:shape", False, f["span"], "UNRECOGNISED: for_each_child is not a match on self with a visitor parameter")
+        if visitor is None:
+            ctx.inst("T1", "for_each_child:shape", False, f["span"], "UNRECOGNISED: for_each_child has no visitor parameter")
             raise AnchorMissing("T1")
-        for alt, arm in match_arms(m):
-            vp = variant_pat(alt)
-            if vp is None:
-                ctx.inst("T1", "for_each_child:wildcard", False, arm["sp"], "for_each_child has a non-variant (wildcard) arm `%s`: children of variants falling into it are not enumerated" % show_pat(alt))
+        # per variant: partially evaluate the body with `self` known to be that variant and read the visitor calls off the trace
+        for name, info in t0.variants.items():
+            pe = peval.PEval(is_self_expr, info["path"])
+            try:
+                pe.run(f)
+            except peval.Stuck as ex:
+                ctx.inst("T1", "for_each_child:%s" % name, False, f["span"], "UNRECOGNISED: the children visited for %s could not be determined (%s)" % (name, ex))
                 continue
-            path, keys, _rest = vp
-            name = vname(path)
-            bind = {}
-            for k, sp in keys.items():
-                b = binding_of(sp)
-                if b:
-                    bind[b[1]] = k
-            visits = []
-            ok = True
-            for n in walk(arm["body"]):
-                if n.get("k") == "callv" and peel(n["f"]).get("k") == "local" and peel(n["f"])["id"] == visitor[1]:
-                    a = peel(n["args"][0]) if n["args"] else {}
-                    if a.get("k") == "local" and a["id"] in bind:
-                        visits.append(bind[a["id"]])
+            visits, ok = [], True
+            for kind, target, args in pe.trace:
+                if kind == "callv" and target == ("local", canon(visitor[1])):
+                    a = args[0] if args else None
+                    if isinstance(a, tuple) and a[0] == "attr":
+                        visits.append(a[1])
                     else:
                         ok = False
-                elif n.get("k") in ("if", "match", "loop", "while", "for") :
-                    ok = False
             if not ok:
-                ctx.inst("T1", "for_each_child:%s" % name, False, arm["sp"], "UNRECOGNISED: arm for %s is not a plain sequence of visitor calls on bound fields" % name)
+                ctx.inst("T1", "for_each_child:%s" % name, False, f["span"], "UNRECOGNISED: for %s the visitor is called on something that is not a field of the node" % name)
                 continue
             self.order[name] = visits
         # T1 obligations: every variant visited = its ExprRef fields, each once
         for name, info in t0.variants.items():
             if name not in self.order:
-                ctx.inst("T1", "for_each_child:%s" % name, False, f["span"], "variant %s has no arm in for_each_child" % name)
                 continue
             got = self.order[name]
             ctx.inst("T1", "for_each_child:%s" % name, sorted(map(str, got)) == sorted(map(str, info["child_keys"])) and len(set(got)) == len(got), f["span"],
@@ -145,17 +137,17 @@ class T1:
         # num_children
         nf = ctx.fn_opt("patronus", NUM_CHILDREN)
         if nf is not None:
-            m2 = find_match_on(nf["body"], is_self_expr)
-            if m2 is not None:
-                for alt, arm in match_arms(m2):
-                    vp = variant_pat(alt)
-                    if vp is None:
-                        continue
-                    name = vname(vp[0])
-                    b = peel(arm["body"])
-                    if b.get("k") == "lit" and name in self.order:
-                        ctx.inst("T1", "num_children:%s" % name, b["v"] == len(self.order[name]), arm["sp"],
-                                 "num_children(%s) = %s but for_each_child visits %d children" % (name, b["v"], len(self.order[name])))
+            for name, info in t0.variants.items():
+                if name not in self.order:
+                    continue
+                pe = peval.PEval(is_self_expr, info["path"])
+                try:
+                    v = pe.run(nf)
+                except peval.Stuck:
+                    continue
+                if isinstance(v, tuple) and v[0] == "lit":
+                    ctx.inst("T1", "num_children:%s" % name, v[1] == len(self.order[name]), nf["span"],
+                             "num_children(%s) = %s but for_each_child visits %d children" % (name, v[1], len(self.order[name])))
 
 
 def eval_variant_pred(body, pid, variant_path, depth=0):
